@@ -10,6 +10,7 @@
 (*    "items":[[t,u]..]}                                                   *)
 (*   {"ev":"mod","u":u,"t":t} {"ev":"add","u":u,"t":t,"k":k} {"ev":"del","u":u} *)
 (*   {"ev":"deliver","u":u}   {"ev":"finish","ok":b}                       *)
+(*   {"ev":"reqfail","nreq":r}  the harness made list request number r fail *)
 (***************************************************************************)
 EXTENDS CollectionScanContract, TraceIO
 
@@ -28,6 +29,7 @@ TraceReset == /\ IsEvent("reset")
               /\ everdel' = {}
               /\ delivered' = {}
               /\ fin' = "no"
+              /\ reqfailed' = FALSE
 
 TraceCount   == IsEvent("count")   /\ Count(Ev.flt, Ev.it, Ev.io, Ev.n)
 TracePage    == IsEvent("page")    /\ Page(Ev.flt, Ev.it, Ev.io, Ev.ord, Ev.limit, Ev.items)
@@ -36,12 +38,13 @@ TraceAdd     == IsEvent("add")     /\ EnvAdd(Ev.u, Ev.t, Ev.k)
 TraceDel     == IsEvent("del")     /\ EnvDelete(Ev.u)
 TraceDeliver == IsEvent("deliver") /\ Deliver(Ev.u)
 TraceFinish  == IsEvent("finish")  /\ Finish(Ev.ok)
+TraceReqFail == IsEvent("reqfail") /\ ReqFail
 
 \* the fake refused further list requests (a scan that does not end is outside the statement;
 \* checks/C06.py reports it as drift)
 TraceOverrun == IsEvent("overrun") /\ UNCHANGED cvars
 
-TraceNext == TraceOverrun \/ TraceReset \/ TraceCount \/ TracePage \/ TraceMod \/ TraceAdd \/ TraceDel
+TraceNext == TraceOverrun \/ TraceReqFail \/ TraceReset \/ TraceCount \/ TracePage \/ TraceMod \/ TraceAdd \/ TraceDel
              \/ TraceDeliver \/ TraceFinish
 
 TraceSpec == TraceInit /\ [][TraceNext]_<<cvars, l>>
